@@ -78,12 +78,14 @@ def cases(tier, seed):
                     yield dict(kind="pair", lat=lname, W=W, E=E, latband=1, form="1d", dtype="f4")
     for bad in ("w_lt_-180", "e_gt_360", "w_gt_360", "e_lt_-180", "span_gt_360", "s_lt_-90", "n_gt_90",
                 "lon_gt_360", "lon_lt_-180", "lat_gt_90", "lat_lt_-90"):
-        yield dict(kind="invalid", bad=bad)
+        for delta in (5.0, 0.5, 1e-3, 1e-9):
+            yield dict(kind="invalid", bad=bad, delta=delta)
     # out-of-range coordinates are rejected whatever the region looks like: ordinary, crossing 0, crossing 180, full globe in
     # several spellings, zero width (seed C17-r2_2: a full-globe fast path that skipped the coordinate checks)
     for bad in ("lon_gt_360", "lon_lt_-180", "lat_gt_90", "lat_lt_-90"):
         for reg in ([350.0, 10.0], [170.0, -170.0], [0.0, 360.0], [-180.0, 180.0], [-72.5, 287.5], [40.0, 40.0], [-20.0, 20.0], [180.0, 360.0]):
-            yield dict(kind="invalid", bad=bad, reg=reg)
+            for delta in (5.0, 1e-3):
+                yield dict(kind="invalid", bad=bad, reg=reg, delta=delta)
 
 
 def _lons(lat_name, tier_vals):
@@ -95,24 +97,27 @@ def run(case, rec):
 
     if case["kind"] == "invalid":
         bad = case["bad"]
+        # just outside the accepted ranges (the exact bounds -180, 360, +-90 and a span of exactly 360 are accepted: they are
+        # part of the lattice); values far outside as well
+        d_ = case.get("delta", 5.0)
         reg = dict(
-            [("w_lt_-180", [-185.0, 10.0, -10.0, 10.0]), ("e_gt_360", [10.0, 365.0, -10.0, 10.0]),
-             ("w_gt_360", [361.0, 362.0, -10.0, 10.0]), ("e_lt_-180", [-190.0, -181.0, -10.0, 10.0]),
-             ("span_gt_360", [-180.0, 185.0, -10.0, 10.0]), ("s_lt_-90", [0.0, 10.0, -95.0, 10.0]),
-             ("n_gt_90", [0.0, 10.0, -10.0, 95.0])]
+            [("w_lt_-180", [-180.0 - d_, 10.0, -10.0, 10.0]), ("e_gt_360", [10.0, 360.0 + d_, -10.0, 10.0]),
+             ("w_gt_360", [360.0 + d_, 360.0 + 2 * d_, -10.0, 10.0]), ("e_lt_-180", [-180.0 - 2 * d_, -180.0 - d_, -10.0, 10.0]),
+             ("span_gt_360", [-180.0, 180.0 + d_, -10.0, 10.0]), ("s_lt_-90", [0.0, 10.0, -90.0 - d_, 10.0]),
+             ("n_gt_90", [0.0, 10.0, -10.0, 90.0 + d_])]
         ).get(bad, [0.0, 20.0, -10.0, 10.0])
         if case.get("reg") is not None:
             reg = [case["reg"][0], case["reg"][1], -10.0, 10.0]
         lon = np.array([0.0, 5.0, 10.0])
         la = np.array([0.0, 1.0, 2.0])
         if bad == "lon_gt_360":
-            lon = np.array([0.0, 5.0, 361.0])
+            lon = np.array([0.0, 5.0, 360.0 + d_])
         if bad == "lon_lt_-180":
-            lon = np.array([-181.0, 5.0, 10.0])
+            lon = np.array([-180.0 - d_, 5.0, 10.0])
         if bad == "lat_gt_90":
-            la = np.array([0.0, 91.0, 2.0])
+            la = np.array([0.0, 90.0 + d_, 2.0])
         if bad == "lat_lt_-90":
-            la = np.array([-90.5, 1.0, 2.0])
+            la = np.array([-90.0 - d_, 1.0, 2.0])
         got = call(rec, vd.longitude_continuity, (lon, la), reg)
         rec.check(raised(got) and isinstance(got.exc, ValueError), "invalid input %s must raise ValueError, got %r" % (bad, got))
         rec.cls("refusal:" + bad)
